@@ -547,7 +547,8 @@ def body(ck: common.Check):
         if why:
             ck.disagreement(case["stream"], case, {"impl": impl, "why": why}, ans)
         lay = ans["layout"]
-        if "ok" in ans["bounds"] and not (lay["bound"] == lay["convert"] == lay["update"] == lay["spec"]):
+        wf = not any(v.get("bad") == "ctor-rows" for v in case["vars"])  # hypothesis `Var.WF` of the theorem
+        if wf and "ok" in ans["bounds"] and not (lay["bound"] == lay["convert"] == lay["update"] == lay["spec"]):
             raise common.InfraError(f"driver contradicts theorem three_walkers_agree: {lay}")
     # full calibrations: model answers need the decision vectors the optimiser chose
     run_impls = [run_calibration(c) for c in runs]
